@@ -442,6 +442,12 @@ func (w *world) onEvent(e *simapi.Event) {
 }
 
 func (w *world) env(e replay.Entry) {
+	if e.K == "grab" {
+		// another owner makes itself the controller of a package object (in the middle of an Establish)
+		w.grab(e.O)
+		w.emit("env", map[string]any{"verb": e.K, "target": e.O, "abs": e.K + ":" + e.O})
+		return
+	}
 	st := pkgv1.PackageRevisionInactive
 	switch e.K {
 	case "activate":
@@ -455,6 +461,20 @@ func (w *world) env(e replay.Entry) {
 	})
 	w.actor, w.refs0, w.control, w.estres = "", nil, false, ""
 	w.emit("env", map[string]any{"verb": e.K, "target": "none", "abs": e.K + ":" + e.O})
+}
+
+// grab: the foreign revision (Q) becomes the controller of an existing, uncontrolled package object.
+func (w *world) grab(alias string) {
+	var q types.UID
+	for uid, a := range w.uidBy {
+		if a == "Q" {
+			q = uid
+		}
+	}
+	w.s.Mutate(crdKey(alias), func(u *unstructured.Unstructured) {
+		u.SetOwnerReferences(append(u.GetOwnerReferences(), metav1.OwnerReference{APIVersion: "pkg.crossplane.io/v1", Kind: "ProviderRevision",
+			Name: "other-r1", UID: q, Controller: ptr.To(true), BlockOwnerDeletion: ptr.To(true)}))
+	})
 }
 
 func crd(alias, from string) *extv1.CustomResourceDefinition {
